@@ -64,6 +64,15 @@ theorem concat_table_ok : concatTable.all (·.2) = true := by decide
 /-- per-sample seeds come from a private stream seeded with the dataset seed (`temp_seed`) -/
 theorem init_seed_table_ok : initSeedTable.all (·.2) = true := by decide
 
+/-- file selection of `H5SliceData.__init__` / `CMRxReconDataset.__init__` is `selectFiles`; the listing is sorted iff the
+model says so -/
+theorem select_table_ok : selectTable.all (·.2) = true := by decide
+theorem cmr_select_table_ok : cmrSelectTable.all (·.2) = true := by decide
+theorem listing_sorted_eq : listingSorted = listingSortedCurrent ∧ cmrListingSorted = cmrListingSortedCurrent := by decide
+/-- what the subclasses forward is `classParams`; `CMRxReconDataset` is `cmrParse` / `cmrBlock` -/
+theorem class_table_ok : classTable.all (·.2) = true := by decide
+theorem cmr_table_ok : cmrTable.all (·.2) = true := by decide
+
 /-- the seed reaches `make_blobs(random_state=…)` and `simulate_sensitivity_maps(seed=…)`, which seeds
 for every seed that is not `None` -/
 theorem fake_table_ok : fakeTable.allTrue = true := by decide
